@@ -282,7 +282,7 @@ func (g *gen) sp() string {
 // ---------------------------------------------------------------------------
 // literals
 
-var keyPool = []string{"a", "b", "c", "k", "", "é", "k 1", "10", "A", "a.b", "😀", "$x", "if"}
+var keyPool = []string{"a", "b", "c", "k", "", "é", "k 1", "10", "A", "a.b", "😀", "$x", "if", "_error", "_name"}
 var identKeys = []string{"a", "b", "c", "k", "A"}
 
 // KeyPool is the pool object keys of generated inputs and programs share.
@@ -290,7 +290,7 @@ func KeyPool() []string { return keyPool }
 
 var subjectPool = []string{"abc", "a.b.c", "aXbxC", "tst 123 foo", "a\\b", "a,b, c", "ééé", "😀x😀", "", "  pad  ", "l1\nl2", "a1b22c333", "foo bar foo", "a|b", "x*y+z", "(p)[q]{r}", "^$", "A", "aaa"}
 var metaPool = []string{".", "\\", "a.b", "*", "(", "[", "$", "^", "|", "+", "?", "{", "}", ")", "]", "\\d", " ", "", ",", ", ", "ab", "a", "b", "é", "\n", "x", "aa", "1", "\\\\", ".*", "[a-z]", "😀"}
-var jsonTextPool = []string{`1`, `"s"`, `null`, `true`, `[1,2,3]`, `[]`, `{}`, `{"a":1}`, `{"a":{"b":[1,2,{"c":null}]}}`, `{"b":1,"a":2}`, `{"c":3,"b":[true],"a":"x","d":{"z":1,"y":2}}`, `[{"k":1},{"k":2,"a":null}]`,
+var jsonTextPool = []string{`{"_error":{"error":"x"}}`, `{"_error":1,"_format":"f","_name":null}`, `1`, `"s"`, `null`, `true`, `[1,2,3]`, `[]`, `{}`, `{"a":1}`, `{"a":{"b":[1,2,{"c":null}]}}`, `{"b":1,"a":2}`, `{"c":3,"b":[true],"a":"x","d":{"z":1,"y":2}}`, `[{"k":1},{"k":2,"a":null}]`,
 	`12345678901234567890`, `1.5e300`, `1e1000`, `-0`, `0.1`, `"é😀"`, ` [1 , 2] `, `{"a":1,"a":2}`, `[1,2`, ``, `nan`, `1 2`, `{"":1}`, `"\u0000"`, `1.0`, `100000000000000000000000`, `[[[]]]`, `{"a":[{"b":"c"}]}`}
 var flagPool = []string{`"g"`, `"i"`, `"x"`, `"gi"`, `""`, `null`, `"n"`, `"s"`, `"l"`, `"gx"`, `"q"`, `"ig"`, `"p"`}
 var numLits = []string{"0", "1", "2", "3", "-1", "10", "1.5", "0.5", "100", "255", "1e3", "7", "-2", "9007199254740993", "1e300", "0.1", "1.0", "1e-7", "12345678901234567890", "4", "5"}
